@@ -368,6 +368,34 @@ class Repo:
                 return qual
         return qual
 
+    def singledispatch_table(self, m: Module, fn) -> Optional[List[Tuple[ast.expr, Module, ast.FunctionDef]]]:
+        """If the module-level function `fn` of `m` is a functools.singledispatch generic: its registrations, as
+        (type expression, module of the registration, implementation), in source order; None if it is not a generic."""
+        if not any(self.resolve_expr(m, d) in ("functools.singledispatch",) for d in getattr(fn, "decorator_list", []) if isinstance(d, (ast.Name, ast.Attribute))):
+            return None
+        key = (m.name, fn.name)
+        cache = self.__dict__.setdefault("_sd_cache", {})
+        if key in cache:
+            return cache[key]
+        gq = f"{m.name}.{fn.name}"
+        out: List[Tuple[ast.expr, Module, ast.FunctionDef]] = []
+        for m2 in self.modules.values():
+            for st in self._flat_toplevel(m2.tree.body):
+                if not isinstance(st, ast.FunctionDef):
+                    continue
+                for d in st.decorator_list:
+                    target = d.func if isinstance(d, ast.Call) else d
+                    if not (isinstance(target, ast.Attribute) and target.attr == "register"):
+                        continue
+                    if self.resolve_expr(m2, target.value) != gq:
+                        continue
+                    if isinstance(d, ast.Call) and d.args:
+                        out.append((d.args[0], m2, st))
+                    elif st.args.args and st.args.args[0].annotation is not None:
+                        out.append((st.args.args[0].annotation, m2, st))
+        cache[key] = out
+        return out
+
     def global_def(self, modname: str, name: str, _depth: int = 0):
         """Where a module-level name is defined, following re-exports (`from ._impl import name [as alias]`):
         ('class', Module, ClassInfo) | ('function', Module, FunctionDef) | ('assign', Module, [value expressions]) | None"""
@@ -687,6 +715,11 @@ class Repo:
                 return self._fold_qual(q, _depth)
             raise NotConst(f"name {e.id}")
         if isinstance(e, ast.Attribute):
+            bq = self.resolve_expr(m, e.value)
+            if bq and "." in bq:
+                bm, bn = bq.rsplit(".", 1)
+                if bm in self.modules and bn in self.modules[bm].assigns and bn not in self.modules[bm].classes:
+                    raise NotConst("attribute of a module-level value")  # evaluated, not named
             q = self.resolve_expr(m, e)
             if q:
                 return self._fold_qual(q, _depth)
